@@ -245,7 +245,8 @@ def run(ctx):
     # (d) generated code of two fresh generator processes
     bing = cargo_build(ctx, "codegen_h")
     if bing is not None:
-        sub = projects[: ctx.budget(60, 600)]
+        # (generated projects — several locales, fallbacks, namespaces — and a few of the single-locale corpus ones)
+        sub = projects[len(corpus): len(corpus) + ctx.budget(70, 600)] + projects[:10]
         reqs = [dict(proj.harness_req(p), op="codegen", tokens=True) for p in sub]
         g1 = run_lines_resilient(bing, reqs)
         g2 = run_lines_resilient(bing, reqs)
